@@ -283,8 +283,13 @@ fn model_json(ids: &mut Ids, m: &Model) -> Value {
 }
 
 /// listing of a serialized shard through the seekable reader (the observation channel for derived shards)
+/// a seekable source that returns short reads (`read` may; only `read_exact` promises the full count)
+fn short(bytes: &[u8]) -> crate::drivers::xorb::ShortSeekReader {
+    crate::drivers::xorb::ShortSeekReader::new(bytes, &[1, 2, 3, 5, 8, 13, 21, 64, 4096, 7, 48, 47, 49, 100_000])
+}
+
 fn listing(ids: &mut Ids, bytes: &[u8]) -> Result<Value, String> {
-    let mut cur = Cursor::new(bytes);
+    let mut cur = short(bytes);
     let si = MDBShardInfo::load_from_reader(&mut cur).map_err(|e| format!("{e:?}"))?;
     let files = si.read_all_file_info_sections(&mut cur).map_err(|e| format!("{e:?}"))?;
     let cas = si.read_all_cas_blocks_full(&mut cur).map_err(|e| format!("{e:?}"))?;
@@ -426,7 +431,7 @@ fn lookup_all(ids: &mut Ids, out: &mut Out, m: &Model, bytes: &[u8], mem: &MDBIn
         fq.push(pool.file_hashes[rng.gen_range(0..pool.file_hashes.len())]);
     }
     for h in &fq {
-        let r = guarded(|| si.get_file_reconstruction_info(&mut Cursor::new(bytes), h));
+        let r = guarded(|| si.get_file_reconstruction_info(&mut short(bytes), h));
         let (res, rec) = match r {
             Ok(Ok(Some(fi))) => ("hit".to_string(), file_json(ids, &fi)),
             Ok(Ok(None)) => ("none".to_string(), json!({})),
@@ -480,7 +485,7 @@ fn export_lookups(ids: &mut Ids, out: &mut Out, src: &Model, outsid: &str, bytes
             fq.push(pool.file_hashes[rng.gen_range(0..pool.file_hashes.len())]);
         }
         for h in &fq {
-            let (res, rec) = match guarded(|| si.get_file_reconstruction_info(&mut Cursor::new(bytes), h)) {
+            let (res, rec) = match guarded(|| si.get_file_reconstruction_info(&mut short(bytes), h)) {
                 Ok(Ok(Some(fi))) => ("hit".to_string(), file_json(ids, &fi)),
                 Ok(Ok(None)) => ("none".to_string(), json!({})),
                 Ok(Err(e)) => (format!("err {e:?}"), json!({})),
@@ -528,7 +533,7 @@ fn scan_all(ids: &mut Ids, out: &mut Out, sid: &str, bytes: &[u8]) {
         Err(p) => out.ev("ShPanic", json!({"sid": sid, "what": p})),
     }
     // minimal reader
-    match guarded(|| MDBMinimalShard::from_reader(&mut Cursor::new(bytes), true, true)) {
+    match guarded(|| MDBMinimalShard::from_reader(&mut short(bytes), true, true)) {
         Ok(Ok(ms)) => {
             let mut files = vec![];
             for i in 0..ms.num_files() {
@@ -571,7 +576,7 @@ fn scan_all(ids: &mut Ids, out: &mut Out, sid: &str, bytes: &[u8]) {
     let ids_cell = std::cell::RefCell::new(&mut *ids);
     let r = guarded(|| {
         process_shard_stream(
-            &mut Cursor::new(bytes),
+            &mut short(bytes),
             Some(|v: mdb_shard::file_structs::MDBFileInfoView| {
                 let fi = MDBFileInfo {
                     metadata: v.header().clone(),
@@ -597,6 +602,66 @@ fn scan_all(ids: &mut Ids, out: &mut Out, sid: &str, bytes: &[u8]) {
         Err(p) => out.ev("ShPanic", json!({"sid": sid, "what": p})),
     }
     drop(ids_cell);
+    scan_accessors(ids, out, sid, bytes);
+    // the same on the shard as the minimal reader writes it out again (no lookup tables at all)
+    if let Ok(Ok(ms)) = guarded(|| MDBMinimalShard::from_reader(&mut Cursor::new(bytes), true, true)) {
+        let mut again = vec![];
+        if let Ok(Ok(())) = guarded(|| ms.serialize(&mut again).map(|_| ())) {
+            scan_accessors(ids, out, sid, &again);
+        }
+    }
+    scan_sections(ids, out, sid, bytes);
+}
+
+/// the remaining read accessors of the format: xorb headers with their positions, the (truncated chunk hash ->
+/// location) list - read from the chunk lookup table or, when the shard has none, rebuilt from the records - and the
+/// byte ranges of the file records
+fn scan_accessors(ids: &mut Ids, out: &mut Out, sid: &str, bytes: &[u8]) {
+    {
+        let r = guarded(|| -> Result<(Vec<Value>, Vec<Value>, bool, Vec<Value>), String> {
+            let mut cur = Cursor::new(bytes);
+            let si = MDBShardInfo::load_from_reader(&mut cur).map_err(|e| format!("{e:?}"))?;
+            let mut xs = vec![];
+            for (hdr, pos) in si.read_all_cas_blocks(&mut cur).map_err(|e| format!("{e:?}"))? {
+                cur.seek(SeekFrom::Start(pos)).map_err(|e| format!("{e:?}"))?;
+                match MDBCASInfo::deserialize(&mut cur).map_err(|e| format!("{e:?}"))? {
+                    Some(c) if c.metadata.cas_hash == hdr.cas_hash && c.metadata.num_entries == hdr.num_entries => xs.push(cas_json(ids, &c)),
+                    _ => return Err("position returned with a xorb header does not hold that header".into()),
+                }
+            }
+            let mut locs = vec![];
+            let mut consistent = true;
+            for (trunc, (ci, off)) in si.read_all_truncated_hashes(&mut cur).map_err(|e| format!("{e:?}"))? {
+                cur.seek(SeekFrom::Start(si.metadata.cas_info_offset + 48 * ci as u64)).map_err(|e| format!("{e:?}"))?;
+                match MDBCASInfo::deserialize(&mut cur).map_err(|e| format!("{e:?}"))? {
+                    Some(c) if (off as usize) < c.chunks.len() => {
+                        consistent &= mdb_shard::utils::truncate_hash(&c.chunks[off as usize].chunk_hash) == trunc;
+                        locs.push(json!([ids.h(&c.metadata.cas_hash), off]));
+                    },
+                    _ => {
+                        consistent = false;
+                        locs.push(json!([[-1, -1], off]));
+                    },
+                }
+            }
+            let mut fhs = vec![];
+            for (fh, _, _, _) in MDBShardInfo::read_file_info_ranges(&mut Cursor::new(bytes)).map_err(|e| format!("{e:?}"))? {
+                fhs.push(json!(ids.h(&fh)));
+            }
+            Ok((xs, locs, consistent, fhs))
+        });
+        match r {
+            Ok(Ok((xs, locs, consistent, fhs))) => {
+                out.ev("ShScanPart", json!({"sid": sid, "reader": "headers", "part": "xorbs", "xorbs": xs, "files": []}));
+                out.ev("ShIndexScan", json!({"sid": sid, "locs": locs, "consistent": consistent, "file_hashes": fhs}));
+            },
+            Ok(Err(e)) => out.ev("ShError", json!({"sid": sid, "what": format!("accessors {e}")})),
+            Err(p) => out.ev("ShPanic", json!({"sid": sid, "what": p})),
+        }
+    }
+}
+
+fn scan_sections(ids: &mut Ids, out: &mut Out, sid: &str, bytes: &[u8]) {
     // the streaming reader asked for one section only (the other callback absent)
     {
         let mut only_x = vec![];
@@ -804,7 +869,7 @@ fn run_dedup(rng: &mut Rng_, ids: &mut Ids, out: &mut Out, n: usize, rt: &tokio:
                     Ok(a) => out.ev("ShDedup", json!({"impl": "mem", "sids": [m.sid], "q": qj, "ans": ans_json(ids, &a), "must_find": false})),
                     Err(p) => out.ev("ShPanic", json!({"what": p})),
                 }
-                let a = guarded(|| si.chunk_hash_dedup_query(&mut Cursor::new(&bytes), q));
+                let a = guarded(|| si.chunk_hash_dedup_query(&mut short(&bytes), q));
                 match a {
                     Ok(Ok(a)) => out.ev("ShDedup", json!({"impl": "disk", "sids": [m.sid], "q": qj, "ans": ans_json(ids, &a), "must_find": false})),
                     Ok(Err(e)) => out.ev("ShError", json!({"what": format!("{e:?}")})),
@@ -1031,11 +1096,12 @@ fn run_consolidate(rng: &mut Rng_, ids: &mut Ids, out: &mut Out, n: usize) {
     for i in 0..n {
         let pool = Pool::new(rng, 12, 3);
         let dir = tempfile::tempdir().unwrap();
-        let k = rng.gen_range(1..=8usize);
+        let k = if i % 3 == 2 { rng.gen_range(4..=8usize) } else { rng.gen_range(1..=8usize) };
         let mut before = vec![];
         let mut sizes = vec![];
         let mut names: HashMap<String, String> = HashMap::new(); // file name -> sid
         let mut prev_model: Option<Model> = None;
+        let mut first_two: Vec<Model> = vec![];
         for j in 0..k {
             let mut m = random_model(rng, &pool, &format!("C{i}s{j}"), 3, 3, 3);
             while m.xorbs.is_empty() && m.files.is_empty() {
@@ -1052,10 +1118,33 @@ fn run_consolidate(rng: &mut Rng_, ids: &mut Ids, out: &mut Out, n: usize) {
                     m = sub;
                 }
             }
+            // a directory in which an earlier consolidation was interrupted after it had written its output: the first
+            // two shards AND their union are there (the union's content - and so its name - is what merging the two
+            // gives again), followed by younger shards that may be merged with it
+            if j == 2 && i % 3 == 2 && before.len() == 2 {
+                if let (Some(a), Some(b)) = (first_two.first().cloned(), first_two.get(1).cloned()) {
+                    let (a, b): (Model, Model) = (a, b);
+                    let mut u = Model { sid: m.sid.clone(), ..Default::default() };
+                    for x in a.xorbs.iter().chain(b.xorbs.iter()) {
+                        if !u.xorbs.iter().any(|y| y.h == x.h) {
+                            u.xorbs.push(x.clone());
+                        }
+                    }
+                    for f in a.files.iter().chain(b.files.iter()) {
+                        if !u.files.iter().any(|y| y.h == f.h) {
+                            u.files.push(f.clone());
+                        }
+                    }
+                    m = u;
+                }
+            }
+            if first_two.len() < 2 {
+                first_two.push(m.clone());
+            }
             prev_model = Some(m.clone());
             // mostly as flushed; sometimes without lookup tables (as the minimal reader writes a shard out: the
             // footer's lookup counts are 0 although the shard has records)
-            let p = if rng.gen_bool(0.3) {
+            let p = if rng.gen_bool(0.3) && !(j == 2 && i % 3 == 2) {
                 let full = serialize(&to_mem(&m));
                 let mut bare = vec![];
                 match MDBMinimalShard::from_reader(&mut Cursor::new(&full), true, true).and_then(|ms| ms.serialize(&mut bare)) {
@@ -1111,12 +1200,16 @@ fn run_consolidate(rng: &mut Rng_, ids: &mut Ids, out: &mut Out, n: usize) {
             strays += 1;
         }
         let total: u64 = sizes.iter().sum();
-        let threshold = match i % 4 {
+        let threshold = if i % 3 == 2 && sizes.len() >= 4 {
+            // the first two form one merge group (a shard joins a group while the sum stays below the threshold), their
+            // union - the third file - starts the next group and is merged with the fourth
+            (sizes[0] + sizes[1]).max(sizes[2] + sizes[3]) + 1
+        } else { match i % 4 {
             0 => 1,
             1 => total + 1,
             2 => sizes[0] + sizes.get(1).copied().unwrap_or(0) + 1,
             _ => rng.gen_range(1..=total + 1),
-        };
+        } };
         let r = guarded(|| consolidate_shards_in_directory(dir.path(), threshold));
         match r {
             Ok(Ok(list)) => {
@@ -1326,15 +1419,58 @@ fn run_keyed(ctl: &Arc<Ctl>, rng: &mut Rng_, ids: &mut Ids, out: &mut Out, n: us
                 }
             }
         }
+        // a shard that also holds a xorb with more chunks than a 16-bit chunk offset can address (limits above the
+        // default allow it): whatever the index does with that xorb's far chunks, the chunks of the shard's other xorbs
+        // are found
+        if i % 4 == 0 && m.key.is_none() && !m.xorbs.is_empty() {
+            let wide = tempfile::tempdir().unwrap();
+            let mut mem = to_mem(&m);
+            let nwide = 66_000usize;
+            let hx = MerkleHash::from([rng.gen(), rng.gen(), 9, 9]);
+            let chunks: Vec<(MerkleHash, u32, MerkleHash)> = (0..nwide)
+                .map(|_| {
+                    let h = MerkleHash::from([rng.gen(), rng.gen(), rng.gen(), 9]);
+                    (h, 1u32, h)
+                })
+                .collect();
+            let r: Result<(), String> = (|| {
+                mem.add_cas_block(to_cas_info(&XorbRec { h: hx, chunks })).map_err(|e| format!("{e:?}"))?;
+                mem.write_to_directory(wide.path()).map_err(|e| format!("{e:?}"))?;
+                rt.block_on(async {
+                    let md = ShardFileManager::new_in_session_directory(wide.path()).await.map_err(|e| format!("{e:?}"))?;
+                    md.register_shards_by_path(&[wide.path()]).await.map_err(|e| format!("{e:?}"))?;
+                    for x in &m.xorbs {
+                        let q: Vec<MerkleHash> = x.chunks.iter().take(3).map(|c| c.2).collect();
+                        let qj: Vec<Value> = q.iter().map(|h| ids.h(h)).collect();
+                        let a = md.chunk_hash_dedup_query(&q).await.map_err(|e| format!("{e:?}"))?;
+                        out.ev("ShDedupMust", json!({"owner": m.sid, "q": qj, "ans": ans_json(ids, &a), "beside": "wide xorb"}));
+                    }
+                    Ok(())
+                })
+            })();
+            if let Err(e) = r {
+                out.ev("ShError", json!({"what": format!("wide xorb: {e}")}));
+            }
+        }
         // expiry: all orderings of now against expiry and expiry + grace, at the exact boundaries
         let t0 = 1_000_000u64 + rng.gen_range(0..1000u64);
         let valid = rng.gen_range(10..100u64);
         // (a grace period of 0 is legal: deletion as soon as the shard has expired, never before)
         let grace = if i % 3 == 2 { 0 } else { rng.gen_range(5..50u64) };
-        for now in [t0, t0 + valid - 1, t0 + valid, t0 + valid + 1, (t0 + valid + grace).saturating_sub(1), t0 + valid + grace, t0 + valid + grace + 1] {
+        // (and a reader whose clock is behind the writer's: now < creation <= expiry is an unexpired shard)
+        for (ni, now) in [t0 - 1, 1_000_000u64, t0, t0 + valid - 1, t0 + valid, t0 + valid + 1, (t0 + valid + grace).saturating_sub(1), t0 + valid + grace, t0 + valid + grace + 1, t0 - 2, t0 + 1].into_iter().enumerate() {
             let dir = tempfile::tempdir().unwrap();
             ctl.set_clock(t0);
-            let r = guarded(|| sf.export_with_expiration(dir.path(), Duration::from_secs(valid)));
+            // (the plain export keeps the source's creation time, 0; the keyed export stamps the time of the export)
+            let as_keyed = (ni + i) % 2 == 1;
+            let export = |d: &Path| {
+                if as_keyed {
+                    sf.export_as_keyed_shard(d, pool.keys[0], Duration::from_secs(valid), true, true, true)
+                } else {
+                    sf.export_with_expiration(d, Duration::from_secs(valid))
+                }
+            };
+            let r = guarded(|| export(dir.path()));
             match r {
                 Ok(Ok(ef)) => {
                     let expiry = ef.shard.metadata.shard_key_expiry;
@@ -1348,7 +1484,7 @@ fn run_keyed(ctl: &Arc<Ctl>, rng: &mut Rng_, ids: &mut Ids, out: &mut Out, n: us
                         let d2 = tempfile::tempdir().unwrap();
                         let ctl2 = ctl.clone();
                         ctl2.set_clock(t0);
-                        if let Ok(Ok(ef2)) = guarded(|| sf.export_with_expiration(d2.path(), Duration::from_secs(valid))) {
+                        if let Ok(Ok(ef2)) = guarded(|| export(d2.path())) {
                             ctl2.set_clock(now);
                             let q: Vec<MerkleHash> = m.xorbs.iter().flat_map(|x| x.chunks.iter().map(|c| c.2)).take(1).collect();
                             for (how, target) in [("file", ef2.path.clone()), ("dir", d2.path().to_path_buf())] {
@@ -1365,7 +1501,8 @@ fn run_keyed(ctl: &Arc<Ctl>, rng: &mut Rng_, ids: &mut Ids, out: &mut Out, n: us
                         }
                     }
                     out.ev("ShExpiry", json!({"creation": t0 - 1_000_000, "valid": valid, "expiry": expiry - 1_000_000, "grace": grace, "now": now - 1_000_000,
-                                              "loaded": loaded.unwrap_or(false), "deleted": !still_there, "via": via}));
+                                              "loaded": loaded.unwrap_or(false), "deleted": !still_there, "via": via, "keyed": as_keyed,
+                                              "stamped": ef.shard.metadata.shard_creation_timestamp}));
                 },
                 Ok(Err(e)) => out.ev("ShError", json!({"what": format!("export_with_expiration: {e:?}")})),
                 Err(p) => out.ev("ShPanic", json!({"what": p})),
